@@ -83,12 +83,22 @@ structure Diff where
   migrated : List (CHash × Val)
   /-- header.ProtocolVersion ≥ 0.14.1 -/
   v2 : Bool
+  /-- keys of `newClasses` that are in neither declared list: sync supplies the definition of a
+  deployed contract's class when the state does not know it -/
+  extraClasses : List CHash := []
   deriving Repr
 
-def Diff.empty : Diff := ⟨[], [], [], [], [], [], [], false⟩
+def Diff.empty : Diff := ⟨[], [], [], [], [], [], [], false, []⟩
 
-/-- keys of `newClasses` -/
+/-- the declared lists `DeclaredV0Classes ++ keys DeclaredV1Classes` (what `Revert` walks first) -/
 def Diff.classHashes (d : Diff) : List CHash := d.declared0 ++ d.declared1.map (·.hash)
+
+/-- keys of `newClasses`: every definition `Update` is given gets registered -/
+def Diff.newClasses (d : Diff) : List CHash := d.classHashes ++ d.extraClasses
+
+/-- the classes `Revert` looks at: the declared ones and the classes of the deployed contracts
+(fix 64c1acb) -/
+def Diff.revertClasses (d : Diff) : List CHash := d.classHashes ++ d.deployed.map (·.2)
 
 def Diff.storageAt (d : Diff) (a : Addr) (k : Slot) : Option Val :=
   (alook d.storage a).bind (fun slots => alook slots k)
@@ -103,13 +113,15 @@ def nodupKeys {β : Type} : List (Nat × β) → Bool
   | p :: r => !(r.any (fun q => q.1 == p.1)) && nodupKeys r
 
 /-- executable form of the well-formedness the theorems assume (`Diff.WF` in the proofs): sections
-are maps, no contract both deployed and replaced, system contracts only receive storage writes -/
+are maps, no contract both deployed and replaced, system contracts only receive storage writes,
+extra class definitions are those of deployed contracts -/
 def Diff.wfb (d : Diff) : Bool :=
   nodupKeys d.storage && d.storage.all (fun p => nodupKeys p.2) && nodupKeys d.nonces &&
   nodupKeys d.deployed && nodupKeys d.replaced &&
   d.deployed.all (fun p => !(d.replaced.any (fun q => q.1 == p.1))) &&
   d.deployed.all (fun p => !isSystem p.1) && d.replaced.all (fun p => !isSystem p.1) &&
-  d.nonces.all (fun p => !isSystem p.1)
+  d.nonces.all (fun p => !isSystem p.1) &&
+  d.extraClasses.all (fun c => d.deployed.any (fun p => p.2 == c))
 
 /-! ## The definition in the property: the abstract state is the fold of the diffs -/
 
@@ -141,7 +153,7 @@ def AbsSt.apply (s : AbsSt) (b : Nat) (d : Diff) : AbsSt where
   decl c :=
     match s.decl c with
     | some n => some n
-    | none => if c ∈ d.classHashes then some b else none
+    | none => if c ∈ d.newClasses then some b else none
   casm c :=
     match alook d.migrated c with
     | some v => some v
@@ -251,10 +263,15 @@ structure Cfg where
   contracts 0x1/0x2 (as found: it does, and `commit` deletes their record — with the height —
   whenever their storage becomes empty, also during `Update`). -/
   sysProbeFix : Bool
+  /-- core/state `writeHistory` writes the class hash of deployed contracts before the one of
+  replaced classes, as `Update` applies them (as found: the other way round, so that for an address
+  both deployed and replaced by one diff the history holds the deployed class and the head the
+  replaced one). -/
+  histOrderFix : Bool
   deriving DecidableEq, Repr
 
-def Cfg.asFound : Cfg := ⟨false, false⟩
-def Cfg.repaired : Cfg := ⟨true, true⟩
+def Cfg.asFound : Cfg := ⟨false, false, false⟩
+def Cfg.repaired : Cfg := ⟨true, true, true⟩
 
 inductive Err
   | alreadyDeployed | notFound | notDeployed | classMissing | checkHeadState
@@ -377,12 +394,18 @@ def histPut (h : Bucket HKey Hist) (key : HKey) (b : Nat) (v : Val) : Bucket HKe
 def histDel (h : Bucket HKey Hist) (key : HKey) (b : Nat) : Bucket HKey Hist :=
   lset h key (hdel (lget h key) b)
 
-/-- `writeHistory`: the value AFTER the change, at the block of the change -/
-def histPutAll (h : Bucket HKey Hist) (b : Nat) (d : Diff) : Bucket HKey Hist :=
+/-- `writeHistory`: the value AFTER the change, at the block of the change. As found the class
+hashes of replaced classes are written before those of deployed contracts (`orderFix = false`),
+the opposite of the order in which `Update` applies them. -/
+def histPutAll (orderFix : Bool) (h : Bucket HKey Hist) (b : Nat) (d : Diff) : Bucket HKey Hist :=
   let h := d.storage.foldl (fun h p => p.2.foldl (fun h e => histPut h (.storage p.1 e.1) b e.2) h) h
   let h := d.nonces.foldl (fun h p => histPut h (.nonce p.1) b p.2) h
-  let h := d.replaced.foldl (fun h p => histPut h (.classHash p.1) b p.2) h
-  d.deployed.foldl (fun h p => histPut h (.classHash p.1) b p.2) h
+  if orderFix then
+    let h := d.deployed.foldl (fun h p => histPut h (.classHash p.1) b p.2) h
+    d.replaced.foldl (fun h p => histPut h (.classHash p.1) b p.2) h
+  else
+    let h := d.replaced.foldl (fun h p => histPut h (.classHash p.1) b p.2) h
+    d.deployed.foldl (fun h p => histPut h (.classHash p.1) b p.2) h
 
 /-- `State.Update` (root checks left out). Guards are evaluated where the code evaluates them:
 `HasContract` on the disk state before the block, `getStateObject` on the state objects so far. -/
@@ -398,8 +421,8 @@ def NState.update (cfg : Cfg) (s : NState) (b : Nat) (d : Diff) : Except Err NSt
   let tl := writeSlots cfg (s.trie, s.leaves) d.storage
   let cl := purgeSys tl.1 (c5, tl.2) d.touched
   .ok { contracts := cl.1, trie := tl.1, leaves := cl.2,
-        classes := declareFold s.classes b d.classHashes,
-        hist := histPutAll s.hist b d }
+        classes := declareFold s.classes b d.newClasses,
+        hist := histPutAll cfg.histOrderFix s.hist b d }
 
 /-- `GetReverseStateDiff`: the values at block `b - 1` read from the history buckets (no
 deployment check on this path) -/
@@ -446,7 +469,7 @@ def NState.revert (cfg : Cfg) (s : NState) (b : Nat) (d : Diff) : Except Err NSt
   let x := deleteContracts (c4, tl.1, tl.2) d.deployed
   let cl := purgeSys x.2.1 (x.1, x.2.2) d.touched
   .ok { contracts := cl.1, trie := x.2.1, leaves := cl.2,
-        classes := undeclareFold s.classes b d.classHashes,
+        classes := undeclareFold s.classes b d.revertClasses,
         hist := histDelAll s.hist b d }
 
 /-- `StateReader` at the head -/
@@ -551,7 +574,7 @@ def LState.updateContracts (s : LState) (log : Bool) (b : Nat)
 
 /-- `State.Update` -/
 def LState.update (s : LState) (b : Nat) (d : Diff) : Except Err LState :=
-  let s1 := { s with classes := declareFold s.classes b d.classHashes }
+  let s1 := { s with classes := declareFold s.classes b d.newClasses }
   if d.deployed.any (fun p => (bget s1.classHash p.1).isSome) then .error .alreadyDeployed else
   let s2 := s1.deploy b d.deployed
   s2.updateContracts true b d.replaced d.nonces d.storage
@@ -590,7 +613,7 @@ def LState.purgeSystem (s : LState) : LState :=
 /-- `State.Revert` of block `b` whose diff was `d` -/
 def LState.revert (s : LState) (b : Nat) (d : Diff) : Except Err LState :=
   if d.classHashes.any (fun c => (bget s.classes c).isNone) then .error .classMissing else
-  let s1 := { s with classes := undeclareFold s.classes b d.classHashes }
+  let s1 := { s with classes := undeclareFold s.classes b d.revertClasses }
   let rs := s1.reverseStorage b d
   if b != 0 && d.nonces.any (fun p => (legacyValueAt (lget s1.logs (.nonce p.1)) (b - 1)).isNone) then .error .checkHeadState else
   let rn := d.nonces.map (fun p => (p.1, if b = 0 then 0 else (legacyValueAt (lget s1.logs (.nonce p.1)) (b - 1)).getD 0))
